@@ -90,7 +90,7 @@ def scenario(ctx):
     replies = {}
     queries = []
     pipe_dc = rig.conn.pipes[1]
-    budget = [3 + ds.choose(23)]
+    budget = [3 + ds.choose(23 * (3 if ctx.tier == 'thorough' else 1))]
     pending_changes = []     # expected PropertiesChanged not yet seen on the wire
 
     def drain_sent():
@@ -324,9 +324,9 @@ def scenario(ctx):
                 raise Violation('C17/get-value', 'getall value', '%s: %s = %r, assigned %r'
                                 % (what, pn, body[pn], ref))
 
-    sched.run(500, extra, invariant)
+    sched.run(500 * (3 if ctx.tier == 'thorough' else 1), extra, invariant)
     budget[0] = 0
-    ok = sched.drain(500, None, invariant)
+    ok = sched.drain(500 * (3 if ctx.tier == 'thorough' else 1), None, invariant)
     if not ok:
         raise Violation('C17/liveness', 'no quiescence', 'drain did not reach quiescence')
     if rig.conn.a.state == net.OPEN:
